@@ -646,7 +646,7 @@ class Message:
                 path = refmsg.opt.uri_path
 
         if multicast_netloc_override is not None:
-            netloc = multicast_netloc_override
+            netloc = _zone_id_to_uri_form(multicast_netloc_override)
         else:
             if local_is_server:
                 netloc = refmsg.remote.hostinfo_local
@@ -655,6 +655,7 @@ class Message:
 
             if refmsg.opt.uri_host is not None or refmsg.opt.uri_port is not None:
                 host, port = hostportsplit(netloc)
+                host = _zone_id_to_uri_form(host)
 
                 host = refmsg.opt.uri_host or host
                 if refmsg.opt.uri_port is not None:
@@ -673,6 +674,8 @@ class Message:
                 # fail"
 
                 netloc = hostportjoin(escaped_host, port)
+            else:
+                netloc = _zone_id_to_uri_form(netloc)
 
         # FIXME this should follow coap section 6.5 more closely
         query = "&".join(_quote_for_query(q) for q in query)
@@ -723,8 +726,11 @@ class Message:
                 "Whitespace and control characters need to be percent encoded"
             )
 
+        # urllib and ipaddress know zone identifiers in their bare form only
+        zoneless_uri, zone = _split_zone_id(uri)
+
         try:
-            parsed = urllib.parse.urlparse(uri)
+            parsed = urllib.parse.urlparse(zoneless_uri)
         except ValueError as e:
             raise error.MalformedUrlError from e
 
@@ -781,8 +787,12 @@ class Message:
         except ValueError as e:
             raise error.MalformedUrlError("Port must be numeric") from e
 
+        netloc = parsed.netloc
+        if zone is not None:
+            netloc = netloc.replace("]", "%" + zone + "]", 1)
+
         try:
-            self.remote = UndecidedRemote(parsed.scheme, parsed.netloc)
+            self.remote = UndecidedRemote(parsed.scheme, netloc)
         except ValueError as e:
             raise error.MalformedUrlError(
                 "Only IPv6 addresses are supported as IP literals"
@@ -951,11 +961,71 @@ def _is_bracketed_ip_literal(host: str) -> bool:
     return True
 
 
+def _zone_id_to_uri_form(host: str) -> str:
+    """Express the zone identifier of an IPv6 address (bracketed or not,
+    possibly followed by a port) the way RFC 6874 has it in URIs: introduced by
+    "%25", and with anything but unreserved characters percent encoded.
+
+    Remotes (and the operating system) have it after a bare "%":
+
+    >>> _zone_id_to_uri_form("[fe80::1%eth0]:1234")
+    '[fe80::1%25eth0]:1234'
+    >>> _zone_id_to_uri_form("fe80::1%25lo")
+    'fe80::1%2525lo'
+    >>> _zone_id_to_uri_form("[2001:db8::1]")
+    '[2001:db8::1]'
+    >>> _zone_id_to_uri_form("example.com:1234")
+    'example.com:1234'
+    """
+    address, percent, rest = host.partition("%")
+    if not percent or ":" not in address:
+        return host
+    zone, bracket, port = rest.partition("]")
+    return address + "%25" + _quote_for_zone(zone) + bracket + port
+
+
+def _split_zone_id(uri: str) -> tuple[str, str | None]:
+    """Take the zone identifier out of the IP literal in the authority
+    component of a URI. As per RFC 6874 it is introduced by "%25" there and
+    percent encoded; it is returned in the decoded form that remotes carry
+    after a bare "%" (see :func:`_zone_id_to_uri_form`). That bare form has
+    always been accepted in URIs too, and stays so unless the zone starts with
+    "25".
+
+    >>> _split_zone_id("coap://[fe80::1%25eth0]:1234/path?%25")
+    ('coap://[fe80::1]:1234/path?%25', 'eth0')
+    >>> _split_zone_id("coap://[fe80::1%25eth%2D0]")
+    ('coap://[fe80::1]', 'eth-0')
+    >>> _split_zone_id("coap://[fe80::1%eth0]/")
+    ('coap://[fe80::1]/', 'eth0')
+    >>> _split_zone_id("coap://[2001:db8::1]/%25")
+    ('coap://[2001:db8::1]/%25', None)
+    """
+    zoned = _zoned_ip_literal.match(uri)
+    if zoned is None:
+        return uri, None
+    start, zone, end = zoned.groups()
+    if zone.startswith("25") and len(zone) > 2:
+        zone = zone[2:]
+    try:
+        zone = urllib.parse.unquote(zone, errors="strict")
+    except UnicodeError as e:
+        raise error.MalformedUrlError(
+            "Percent encoded strings in zone identifiers need to be UTF-8 encoded"
+        ) from e
+    if not zone:
+        raise error.MalformedUrlError("Empty zone identifier")
+    return start + end + uri[zoned.end() :], zone
+
+
 _ascii_lowercase = str.maketrans(string.ascii_uppercase, string.ascii_lowercase)
 
 
 _pct_encoded_dot = re.compile("%2[eE]")
 _bracketed_netloc = re.compile(r"\[[^\[\]]*\](:[0-9]*)?")
+_zoned_ip_literal = re.compile(
+    r"([A-Za-z][A-Za-z0-9+.-]*://\[[^\[\]/?#%]*)%([^\[\]/?#]*)(\])"
+)
 _zone_id = re.compile(r"([A-Za-z0-9._~-]|%[0-9A-Fa-f]{2})+")
 
 
@@ -987,6 +1057,7 @@ def _remove_dot_segments(path: str) -> str:
 
 
 _quote_for_host = quote_factory(unreserved + sub_delims)
+_quote_for_zone = quote_factory(unreserved)
 _quote_for_path = quote_factory(unreserved + sub_delims + ":@")
 _quote_for_query = quote_factory(
     unreserved + "".join(c for c in sub_delims if c != "&") + ":@/?"
